@@ -22,6 +22,8 @@ def expr_paths(obj, path, out, parent=None):
                 expr_paths(x, path + (i,), out, obj)
         return
     if isinstance(obj, (tuple, list)):
+        if isinstance(obj, tuple) and obj and obj[0] == "range":
+            parent = ("range",)   # bounds and step of a for-range
         for i, x in enumerate(obj):
             expr_paths(x, path + (i,), out, parent)
     elif isinstance(obj, dict):
@@ -82,6 +84,11 @@ def edited_programs(draw):
             if "no_number_right_of_str_plus" in SWITCHES and parent is not None and parent[0] == "bin" and parent[2] == "+" \
                     and other == STR:
                 EXCLUDED["no_number_right_of_str_plus"] = EXCLUDED.get("no_number_right_of_str_plus", 0) + 1
+                continue
+            # open finding F49: a Float / None bound of a range is accepted
+            if "no_float_or_nullable_range_bound" in SWITCHES and parent is not None and parent[0] == "range" \
+                    and other in (FLOAT, "none"):
+                EXCLUDED["no_float_or_nullable_range_bound"] = EXCLUDED.get("no_float_or_nullable_range_bound", 0) + 1
                 continue
             # open finding F44 (an if-expression is accepted when one branch conforms): no retyping inside its branches
             if "no_retyped_ifexpr_branch" in SWITCHES and parent is not None and parent[0] == "ifx":
